@@ -145,8 +145,25 @@ def build(sh, is_index, stale=False, pattern="distinct", ovf=False, page_size=51
             rec = sqlitefmt.encode_record([("t", ktext(i).encode())])
             local, _ = b.payload_cell(rec, False)
             cells.append(put_varint(len(rec)) + put_varint(i) + local)
-        # a single leaf may not hold all rows when they overflow: their local parts are small, it does for n <= 30
-        b.pages[other_root] = b.page_image("tl", cells)
+        # the companion table: one leaf when the cells fit, else leaves under one interior root
+        budget = page_size - 8
+        groups, cur, used = [], [], 0
+        for i, c_ in enumerate(cells, 1):
+            if cur and used + len(c_) + 2 > budget:
+                groups.append(cur)
+                cur, used = [], 0
+            cur.append((i, c_))
+            used += len(c_) + 2
+        if cur:
+            groups.append(cur)
+        if len(groups) <= 1:
+            b.pages[other_root] = b.page_image("tl", cells)
+        else:
+            leafs = [b.alloc() for _ in groups]
+            for pg_, g_ in zip(leafs, groups):
+                b.pages[pg_] = b.page_image("tl", [c_ for _, c_ in g_])
+            icells = [struct.pack(">I", pg_) + put_varint(g_[-1][0]) for pg_, g_ in zip(leafs[:-1], groups[:-1])]
+            b.pages[other_root] = b.page_image("ti", icells, right=leafs[-1])
         master = [("table", "t", "t", other_root, "CREATE TABLE t(k)"), ("index", "ti", "t", 2, "CREATE INDEX ti ON t(k)")]
     else:
         master = [("table", "t", "t", 2, "CREATE TABLE t(id INTEGER PRIMARY KEY, v)")]
